@@ -73,6 +73,14 @@ theorem mutex_orders_conflicting_accesses {s1 s2 : LockSem.LS} {g1 g2 : Nat} (in
     of the function that started it (results come back over channels).  Regenerated from the source on every run. -/
 theorem no_closure_writes_to_outer_variables : Gen.goClosureOuterWrites = [] := by decide +kernel
 
+/-- The election's WaitGroup: `Add` must be ordered with the `Wait` of a stop call (an `Add` from zero that races a `Wait`
+    is a misuse the race detector reports).  Every `Add` is made with the election's mutex held exclusively - the stop
+    call's critical section, which ends the run, comes before its `Wait` - except in the two functions that run on the
+    watch loop's goroutine, which the WaitGroup already counts.  Regenerated from the source on every run. -/
+theorem waitgroup_adds_ordered_with_stop :
+    (Gen.wgAdds.all fun a => a.2.2.1 == 2 || a.2.1 == "kvElection.checkKeyAndReelect" || a.2.1 == "kvElection.handleWatchEvent") = true ∧
+    (Gen.wgAdds.map (·.2.1)).contains "kvElection.handleReconnect" = true := by decide +kernel
+
 /-! Non-vacuity of the ordering lemma: writer 1, then reader 2. -/
 example : LockSem.run {} [.acqW 1, .acc 1 true, .relW 1, .acqR 2, .acc 2 false] = some { writer := none, readers := [2] } := by decide
 /-- Without the release the second goroutine cannot get in. -/
